@@ -183,6 +183,30 @@ CHECKS = {
                     "question and was recognised with identical fields."),
         level_note="Trusts miekg/dns Pack/Unpack as the wire; in-package only to call getUpstreamMtu.",
     ),
+    "C10": dict(
+        inpkg="internal/streams/dns", src="inpkg_c10",
+        level="exploration",
+        technique="property-based testing (rapid) + payload-length walks of every response type through the real serializers, record wrappers and real miekg/dns Pack/Unpack; equal-or-reported oracle",
+        rule=("case = (response type version/set-options/packet/error/downstream-codec probe/upstream-codec probe/fragment-size "
+              "probe with every field and every member of BadErrors, record type NULL/PRIVATE/TXT/SRV/MX/CNAME/AAAA/A, downstream "
+              "codec Base32/64/64u/85/91/128/Raw, tunnel domain (5 shapes), payload length 0..8192 biased to 0-4, 13-15, 56-58, "
+              "234-256, multiples of 3/14/253 +-1). Pipeline: server EncodeDnsResponseWithParams -> Pack -> Unpack -> client "
+              "DecodeDnsResponseWithParams. Oracle: (1) for every triple the result is the equal response or an error reported "
+              "at encode/wrap/pack/decode - never a silently different response, never a panic; (2) for triples the client "
+              "itself would select (its 48-byte downstream probe round-trips for that record type, codec and domain) every "
+              "response round-trips equal unless the payload exceeds the capacity the wrap code states (A: 255 records x 3); "
+              "(3) a fixed must-be-selectable table (NULL/PRIVATE x Raw,Base32; TXT/MX/CNAME x Base32/64/64u; SRV x Base32) "
+              "holds. A walk covers every payload length 0..1300 (8192 thorough) for every selectable pair. non-trivial = "
+              "payload > one record of the smallest type or within +-1 of a record limit"),
+        assumptions=["'selectable' is defined operationally by the client's own probe over a transparent wire"],
+        quick=dict(run=".", checks=6000, timeout=600),
+        thorough=dict(run=".", checks=80000, timeout=3000, shards=8),
+        design_ref="DESIGN.md 2/C10",
+        level_text=("Generated responses of every type, record type and codec through the real wrapping code and real DNS wire packing. A "
+                    "green run means every generated response came back equal or with a reported error, and equal whenever the "
+                    "client's own probe says the combination works."),
+        level_note="Trusts miekg/dns Pack/Unpack as the wire.",
+    ),
     "C14": dict(
         pkg="c14",
         level="fault_enumeration",
